@@ -91,7 +91,7 @@ structure LifeState where
 
 def showLife (s : LifeState) : String :=
   let st := match s.srv.state with | .active => 0 | .closing => 1 | .closed => 2
-  s!"state={st} inst={s.inst}"
+  s!"state={st} refuses={if s.srv.isClosing then 1 else 0} inst={s.inst}"
 
 /-- lifecycle commands: only the state machine of ReverseTunnelServer is
     predicted (state, number of registered instances); everything else on these
